@@ -114,9 +114,32 @@ def dispatcher_rule(repo: Repo, rep: Report, rid: str) -> None:
             arms.append(norm(t.comparators[0]).rsplit(".", 1)[1])
         last = cur
         cur = cur.orelse[0] if len(cur.orelse) == 1 and isinstance(cur.orelse[0], ast.If) else None
+    else_ok = last is not None and bool(last.orelse) and always_raises(last.orelse) and "ParserError" in raised_names(last.orelse)
+    if not arms:
+        # table form: handlers = {self.TOK.X: handler, ...}; handler = handlers.get(kind); if handler is None: raise ParserError
+        for d in walk_body(fi.node.body):
+            if isinstance(d, ast.Assign) and isinstance(d.value, ast.Dict) and isinstance(d.targets[0], ast.Name) and d.value.keys and \
+                    all(k is not None and norm(k).startswith("self.TOK.") for k in d.value.keys):
+                table = d.targets[0].id
+
+                def is_lookup(e: ast.AST, table=table) -> bool:
+                    return isinstance(e, ast.Call) and norm(e.func) == f"{table}.get" and len(e.args) == 1
+
+                hs = {x.targets[0].id for x in walk_body(loops[0].body) if isinstance(x, ast.Assign) and is_lookup(x.value) and isinstance(x.targets[0], ast.Name)}
+
+                def is_handler(e: ast.AST) -> bool:
+                    return is_lookup(e) or (isinstance(e, ast.Name) and e.id in hs)
+
+                missing = [x for x in loops[0].body if isinstance(x, ast.If) and isinstance(x.test, ast.Compare) and len(x.test.ops) == 1
+                           and isinstance(x.test.ops[0], ast.Is) and is_handler(x.test.left) and norm(x.test.comparators[0]) == "None"
+                           and always_raises(x.body) and "ParserError" in raised_names(x.body)]
+                called = [c for c in walk_body(loops[0].body) if isinstance(c, ast.Call) and is_handler(c.func)]
+                if called:
+                    arms = [norm(k).rsplit(".", 1)[1] for k in d.value.keys]
+                    else_ok = bool(missing)
     for nm in sorted(starters):
         rep.check(nm in arms, rid, f"{fi.key}:arm {nm}", "dispatched", f"token kind {nm} can start a construct but the dispatcher has no arm for it", fi.loc())
-    rep.check(last is not None and bool(last.orelse) and always_raises(last.orelse) and "ParserError" in raised_names(last.orelse), rid, f"{fi.key}:else",
+    rep.check(else_ok, rid, f"{fi.key}:else",
               "anything else raises ParserError", "the dispatcher chain no longer ends in raise ParserError: stray tokens would be skipped silently", fi.loc())
     rep.floor(rid, "dispatcher arms", len(arms), 6)
     rem = [s for s in walk_body(fi.node.body) if isinstance(s, ast.If) and "remaining" in norm(s.test) and always_raises(s.body)]
@@ -194,6 +217,17 @@ def resolve_rule(repo: Repo, rep: Report, rid: str) -> None:
     fors = [f for f in walk_body(fi.node.body) if isinstance(f, ast.For)]
     rep.check(len(fors) == 1 and isinstance(fors[0].iter, ast.Call) and call_name(fors[0].iter) == "range" and is_const(fors[0].iter.args[0]), rid,
               f"{fi.key}:range", "chain length bounded by a constant range", "the alias chain walk is no longer bounded by a constant", fi.loc())
+    from ..folds import fold_resolve
+
+    fold = fold_resolve(repo)
+    if fold is not None:
+        for label in ("type object passed through", "direct name", "alias chain of 3", "alias chain of 9", "unknown name", "dangling alias", "alias cycle",
+                      "self alias", "alias chain of 40"):
+            bad = [x for x in fold["bad"] if x[0] == label]
+            rep.check(not bad, rid, f"{fi.key}:fold:{label}", "folded over this alias table: yields the type or raises ResolveError, never a string",
+                      f"resolve on an alias table with '{label}': {bad[0][1] if bad else ''} (expected {bad[0][2] if bad else ''})", fi.loc())
+        rep.floor(rid, "resolve exits", fold["cases"], 9)
+        return
     g = CFG(fi.node)
     rets = [x for x in g.nodes if x.kind == "stmt" and isinstance(x.ast, ast.Return)]
     n = 0
